@@ -20,13 +20,15 @@ RULE = ('cases = generated programs over Node / PersistentMapping / PersistentLi
         'successful commit; distinct by program hash')
 ASSUMPTIONS = ['the second resource manager is a plain object implementing the data-manager protocol; failures in tpc_finish '
                'are not generated (then the data is committed)']
-BUDGET = {'quick': {'examples': 1500, 'workers': 8},
+BUDGET = {'quick': {'examples': 6000, 'workers': 8},
           'thorough': {'examples': 25000, 'workers': 16}}
 
 
 def strategy(tier):
     n = 18 if tier == 'quick' else 35
     return st.fixed_dictionaries({'kind': st.sampled_from(['fs', 'fs', 'mapping', 'demo']),
+                                  # explicit transaction mode (transaction.TransactionManager(explicit=True))
+                                  'explicit': st.sampled_from([False, False, True]),
                                   'ops': st.lists(objprog.op_strategy({'fail'}), min_size=3, max_size=n)})
 
 
@@ -50,7 +52,8 @@ def execute(case):
     locks.install()
     clock.reset()
     d = newdir()
-    w = objprog.World(storage_factory(case['kind'], d), out, PROPERTY, lenient_disowned=False)
+    w = objprog.World(storage_factory(case['kind'], d), out, PROPERTY, lenient_disowned=False,
+                      explicit=case.get('explicit', False))
     seen_abort = False
     nt = False
     try:
@@ -69,7 +72,7 @@ def execute(case):
                 nt = True
     finally:
         w.close()
-    out.label(case['kind'], *w.labels)
+    out.label(case['kind'], *w.labels, *(['explicit-mode'] if case.get('explicit') else []))
     out.nontrivial = nt
     return out
 
